@@ -45,3 +45,28 @@ func vpH_C08_refuse() {
 // no_early_graft (Join): the GRAFT-emitting site Join (fresh and fanout promotion) never grafts a backed-off peer.
 // (Shared with C07_join, whose assertions include "promoted unless backed off" and "only adds peers ... not backed off".)
 func vpH_C08_join_no_early_graft() { vpH_C07_join() }
+
+// clear: the periodic backoff clean-up (every 15th heartbeat tick) removes an entry only once it has been expired for
+// more than the slack of two heartbeat intervals; an entry whose backoff is still running is never removed.
+func vpH_C08_clear() {
+	w := vpNewWorld(vpWorldCfg{P: 2, params: vpSmallParams()})
+	gs := w.n.gs
+	gs.heartbeatTicks = uint64(vpInt("heartbeat_ticks", 0, 45))
+	sweeps := gs.heartbeatTicks%15 == 0
+	gs.clearBackoff()
+	for i, p := range w.peers {
+		_, still := gs.backoff[vpT0][p]
+		if !w.hasBO[i] {
+			vpAssert(!still, "the clean-up creates no entries")
+			continue
+		}
+		stale := w.boExp[i].Add(2 * GossipSubHeartbeatInterval).Before(w.now)
+		vpAssert(still == !(sweeps && stale), "a backoff entry is removed exactly by a clean-up tick that finds it expired for more than two heartbeat intervals")
+		if !w.boExp[i].Before(w.now) {
+			vpAssert(still, "a backoff that is still running is never forgotten")
+		}
+	}
+	_, any := gs.backoff[vpT0]
+	vpAssert(any == (len(gs.backoff[vpT0]) > 0), "empty per-topic tables are released")
+	vpCover(sweeps && w.hasBO[0] && !w.boExp[0].Before(w.now) && w.boExp[0].Before(w.now.Add(2*GossipSubHeartbeatInterval)), "clean-up tick with a backoff about to expire")
+}
